@@ -25,5 +25,7 @@ CONFIG = dict(
         dict(test="TestC27", quick=20000, thorough=3200000, shards=16, steps=40),
         dict(test="TestC27Regression", kind="plain"),
         dict(test="TestC27ConcurrentDrops", quick=60, thorough=3200, shards=16),
+        # harness-owned schedule: opens of a name while its last Close is held inside a slow underlying Close
+        dict(test="TestC27OpenDuringSlowClose", quick=200, thorough=3200, shards=16),
     ],
 )
